@@ -188,6 +188,38 @@ def positional_inputs(ents, rng, extra_defs=()):
     return out
 
 
+def perm_fault_inputs(ents, rng, extra_defs=()):
+    """C15: small derived structs with every field independently valid / rejected by its conversion function / of a wrong kind,
+    presented in every member order"""
+    import itertools
+    out = []
+    pg = coregen.PayloadGen(rng, extra_defs)
+    auto = {"prefix_cap": 0, "all_upto": 0, "random": 0, "builtin": False}
+    for eid, ty in ents:
+        if ty[0] != "ref":
+            continue
+        d = pg.defs[ty[1]]
+        if d["kind"] != "struct" or d.get("cfrom") or not (2 <= len(d["fields"]) <= 3):
+            continue
+        for states in itertools.product(("ok", "conv", "bad"), repeat=len(d["fields"])):
+            if all(st == "ok" for st in states):
+                continue
+            ms = []
+            for f, st in zip(d["fields"], states):
+                fty = f["from"]["ty"] if f.get("from") else f["ty"]
+                key = f["rename"] if f["rename"] is not None else (coregen.camel(coregen.G.unraw(f["ident"])) if d["rename_all"] == "camelCase" else coregen.G.unraw(f["ident"]))
+                if st == "ok":
+                    ms.append((key, pg.gen(fty, 0.0)))
+                elif st == "conv":       # values the catalogue's fallible functions reject: odd numbers, strings with '!'
+                    ms.append((key, coregen.vint(3) if fty[0] == "scalar" and fty[1] not in ("String", "bool", "char") else (coregen.vstr("x!") if fty == ("scalar", "String") else pg.gen(fty, 0.0))))
+                else:
+                    ms.append((key, coregen.vmap([("q", coregen.vseq([]))])))
+            val = coregen.vmap(coregen.dedup(ms))
+            perms = [dict(val, e=list(pm)) for pm in itertools.permutations(val["e"])][1:]
+            out.append({"ty": eid, "val": val, "src": "ov", "grp": "start", "perm": False, "auto": auto, "perms": perms})
+    return out
+
+
 def subset_inputs(ents, rng, maxfields, extra_defs=()):
     """C08: every way of deleting, nulling or corrupting any subset of the keys of the small structs: each field independently
     present-and-valid / absent / null / of a wrong kind, under two spellings of the keys"""
@@ -248,6 +280,7 @@ def gen_inputs(pid, tier, seed, extra_defs=(), extra_entries=()):
     if pid == "C08" or (tier == "thorough" and pid in ("C02", "C07")):
         recs += subset_inputs(ents, rng, 3 if tier == "quick" else 4, extra_defs)
     if pid == "C15":
+        recs += perm_fault_inputs(ents, rng, extra_defs)
         recs += collide_inputs(ents, rng)
     if pid == "C12":
         recs += adversarial_inputs(ents, rng)
